@@ -133,7 +133,11 @@ CLAIMS = {
              "query-style call on the eject path is never discarded; the ball announced at the target is resolved on "
              "every outcome of the confirm handlers (failure only after did_not_arrive, done only after eject success "
              "or after the ball-missing timeout declared the ball lost with retry and loss handling for the eject's "
-             "target; a returned ball clears already_left; a playfield timeout confirm only when no ball returned). "
+             "target; a returned ball clears already_left; a playfield timeout confirm only when no ball returned); ball save conservation "
+             "(balls kept out of the drain = balls scheduled; every schedule path has exactly one sink; the pending count "
+             "is only added to or reset after the hand-over; the hand-over requests exactly the scheduled number; a mode "
+             "end flushes it); the wait for the ball to leave is unbounded only for a player-controlled request on a "
+             "hand-operated device and otherwise bounded by the eject timeout, as are the confirm waits. "
              "Liveness in general and cancellation races are not decided.",
         technique="typestate pairing on the coroutine CFG (trackers, locks, futures); guard analysis; boolean-event handler return check",
         ref="4/C05"),
